@@ -1007,6 +1007,8 @@ def run(ctx):
         ctx.cov["exhaustive_box"] = "every kernel (jitted) on all 2x2 by 2x1 integer matrices over {-1,0,1}: 729 operand pairs each"
     parts = [next(g) for g in gens]
     lap("generate_and_model")
+    import extra_ops  # reflected / in-place matmul, .dot, element dtypes outside the quick DTYPES: in a child process under a deadline, overlapping the pool's work
+    extra_child = extra_ops.start_child(ctx, PID)
     res = pool.run([j for p in parts for j in p], progress=lambda d, t: core.log(f"C04 calls {d}/{t}"))
     lap("implementation_calls")
     at = 0
@@ -1026,6 +1028,8 @@ def run(ctx):
         except StopIteration:
             pass
     lap("compare")
+    extra_ops.finish_child(ctx, extra_child)
+    lap("extra_ops")
     ctx.notes["watchdog"] = {"hangs": pool.hangs, "crashes": pool.crashes}
     if os.environ.get("C04_DUMP"):  # development aid: every non-agreement of this run
         with open(os.environ["C04_DUMP"], "w") as f:
